@@ -2,6 +2,7 @@ package props
 
 import (
 	"fmt"
+	"math"
 	"math/big"
 	"sort"
 	"strings"
@@ -183,44 +184,6 @@ func c03RunForced(c c03Case) error {
 	}
 	D := ref.D
 	seen := map[string]bool{}
-	allFirst := true
-	n := uint32(0)
-	try := func(pos int, j uint32) (bool, error) {
-		for attempt := 0; attempt < 50; attempt++ {
-			k := ev.Mix64(c.Key, uint64(attempt)*1000003+uint64(j)*7+uint64(pos))
-			ch := make([]uint32, D)
-			for i := range ch {
-				ch[i] = uint32(ev.Mix64(k, uint64(i)) >> 8)
-			}
-			ch[pos] = j
-			o := callForced(ch, func(i int, m uint32) uint32 { return ref.Choices[i%D] }, k, r.Generate)
-			if o.Panic != nil {
-				return false, fmt.Errorf("Generate panicked: %v", o.Panic)
-			}
-			if e := o.S.IndexLevelOK(); e != nil {
-				return false, &ev.Inc{Why: e.Error()}
-			}
-			if o.Pw == nil {
-				continue
-			}
-			if err := checkCharPassword(sp, o.Pw); err != nil {
-				return false, fmt.Errorf("with draw %d of the candidate forced to index %d: %w", pos, j, err)
-			}
-			if len(o.S.Draws) > 0 {
-				n = o.S.Draws[0].Bound
-			}
-			if len(o.S.Draws) == D {
-				for _, x := range oracle.Chars(o.Pw.String()) {
-					if !abSet[x] {
-						return false, fmt.Errorf("character %q not in the alphabet", x)
-					}
-					seen[x] = true
-				}
-				return true, nil
-			}
-		}
-		return false, nil
-	}
 	// a stream on which every attempt fails must not yield an invalid password
 	if pr, _ := sp.PSuccess(); pr != nil && pr.Cmp(bigOne) < 0 {
 		var bad []uint32
@@ -251,33 +214,38 @@ func c03RunForced(c c03Case) error {
 			ev.Class("all_fail_stream_checked")
 		}
 	}
-	// learn the bound from the reference run
-	o := callForced(ref.Choices, nil, 1, r.Generate)
-	if len(o.S.Draws) == 0 {
-		return &ev.Inc{Why: "no draws announced"}
+	// converse of "no other character is ever used": every alphabet character
+	// can appear. Judged on pseudo-random source streams (no assumption about
+	// which draw decides which character): with at least one position free of
+	// requirements and a success chance of 1/2 or more, a given character is in
+	// a given password with probability >= 1/(2U); N = 2U(ln U + 30) passwords
+	// miss one with probability < e^-30.
+	U := len(ab)
+	pr, _ := sp.PSuccess()
+	pf := 0.0
+	if pr != nil {
+		pf, _ = pr.Float64()
 	}
-	n = o.S.Draws[0].Bound
-	if n > 200 {
-		return &ev.Skip{Why: "alphabet too large for the forced sweep"}
-	}
-	for j := uint32(0); j < n; j++ {
-		for _, pos := range []int{0, D - 1} {
-			ok, err := try(pos, j)
-			if err != nil {
+	if sp.Length >= len(sp.Required())+1 && pf >= 0.5 && U <= 120 {
+		N := int(2*float64(U)*(math.Log(float64(U))+30)) + 1
+		for it := 0; it < N && len(seen) < U; it++ {
+			o := callRaw(&tape.Tape{TailKey: ev.Mix64(c.Key, uint64(it)) | 1, Cap: 1 << 22}, r.Generate)
+			if o.Panic != nil {
+				return fmt.Errorf("Generate panicked: %v", o.Panic)
+			}
+			if o.Pw == nil {
+				continue
+			}
+			if err := checkCharPassword(sp, o.Pw); err != nil {
 				return err
 			}
-			if !ok {
-				allFirst = false
+			for _, x := range oracle.Chars(o.Pw.String()) {
+				if abSet[x] {
+					seen[x] = true
+				}
 			}
 		}
-	}
-	ev.Leaves(int64(2 * n))
-	if c03Nontrivial(sp) {
-		ev.NonTrivial(fmt.Sprintf("forced|%+v", sp))
-	}
-	ev.Sample("c03_forced", 3, c)
-	// converse: every alphabet character can appear
-	if allFirst && sp.Length >= len(sp.Required())+1 {
+		ev.Leaves(int64(N))
 		ev.Class("converse_checked")
 		var missing []string
 		for _, x := range ab {
@@ -287,11 +255,15 @@ func c03RunForced(c c03Case) error {
 		}
 		if len(missing) > 0 {
 			sort.Strings(missing)
-			return fmt.Errorf("Alphabet() lists %q but forcing every index of the %d-way draw never produced %q", strings.Join(ab, ""), n, missing)
+			return fmt.Errorf("Alphabet() lists %q but %d passwords from pseudo-random streams never contained %q", strings.Join(ab, ""), N, missing)
 		}
 	} else {
 		ev.Class("converse_not_judged")
 	}
+	if c03Nontrivial(sp) {
+		ev.NonTrivial(fmt.Sprintf("forced|%+v", sp))
+	}
+	ev.Sample("c03_forced", 3, c)
 	return nil
 }
 
